@@ -215,62 +215,61 @@ def _pullback_formulas(fc, Mr: RuleResult):
         Mr.bad(bw, bw.node, "the differentiated products must be A.mm(evecs) and M.mm(evecs)")
 
 
-def _projector(model: Model, O: RuleResult):
-    f = model.func(PUB, "_ortho")
-    pA, pB = f.params()[:2]
-    from ..model import case_split
-    cs0 = case_split(f.node.body, "D is None")
-    if cs0 is None:
-        raise AnalysisError("C06-O: _ortho no longer branches on `D is None`")
-    top = [cs0[3]]
+_ORTHO_SPEC = """
+if {D} is None:
+    if {M} is None:
+        __ret = {A} - torch.einsum("...rc,...rc->...c", {A}, {B}.conj()).unsqueeze(-2) * {B}
+    elif {mright}:
+        __ret = {A} - torch.einsum("...rc,...rc->...c", {M}.mm({A}), {B}.conj()).unsqueeze(-2) * {B}
+    else:
+        __ret = {A} - {M}.mm(torch.einsum("...rc,...rc->...c", {A}, {B}.conj()).unsqueeze(-2) * {B})
+else:
+    if {M} is None:
+        __ret = {A} - torch.matmul({B}, {D} * torch.matmul({B}.transpose(-2, -1).conj(), {A}))
+    elif {mright}:
+        __ret = {A} - torch.matmul({B}, {D} * torch.matmul({B}.transpose(-2, -1).conj(), {M}.mm({A})))
+    else:
+        __ret = {A} - {M}.mm(torch.matmul({B}, {D} * torch.matmul({B}.transpose(-2, -1).conj(), {A})))
+"""
 
-    def cases(block):
-        """{'none' | 'mright' | 'mleft': (statements, definitions before the split)} of the case split on M / mright, whether it
-        is written as if/elif/else or as guard clauses"""
-        c1 = case_split(block, "M is None")
-        if c1 is None:
-            raise AnalysisError("C06-O: a branch of _ortho lost its M / mright case split")
-        none_s, rest_s, pre1, _ = c1
-        c2 = case_split(rest_s, "mright")
-        if c2 is None:
-            raise AnalysisError("C06-O: a branch of _ortho lost its mright case split")
-        right_s, left_s, pre2, _ = c2
-        pre_defs = {s_.targets[0].id: s_.value for s_ in pre1 + pre2 if isinstance(s_, ast.Assign) and isinstance(s_.targets[0], ast.Name)}
-        return {"none": (none_s, pre_defs), "mright": (right_s, pre_defs), "mleft": (left_s, pre_defs)}
-    results = {}
-    for dcase, block in (("D=None", cs0[0]), ("D given", cs0[1])):
-        for key, (body, pre) in cases(block).items():
-            src = " ".join(ast.unparse(s) for s in body)
-            locs = dict(pre)
-            for s in body:
-                if isinstance(s, ast.Assign) and isinstance(s.targets[0], ast.Name):
-                    locs[s.targets[0].id] = s.value
-            rets = [s for s in body if isinstance(s, ast.Return)]
-            if len(rets) != 1 or not (isinstance(rets[0].value, ast.BinOp) and isinstance(rets[0].value.op, ast.Sub) and ast.unparse(rets[0].value.left) == pA):
-                O.bad(f, rets[0] if rets else top[0], "%s/%s: the projector must return A - <correction>" % (dcase, key))
+
+def _projector(model: Model, O: RuleResult):
+    """_ortho is evaluated over symbolic tensor terms in its six cases (degeneracy map given or not) x (no M, M acting on the right,
+    M acting on the left) and compared with the specification above: A - B c(A) with the conjugated B, M applied to A inside the inner
+    product (right) or to the whole subtracted component (left), D multiplied onto B^H A when given - however the cases are arranged."""
+    from ..domains import tensorterm as tt
+    f = model.func(PUB, "_ortho")
+    ps = f.all_params()
+    need = ["D", "M", "mright"]
+    if len(f.params()) < 2 or not all(n_ in ps for n_ in need):
+        raise AnchorError("C06-O: _ortho no longer has the signature (A, B, *, D, M, mright)")
+    pA, pB = f.params()[:2]
+    names = dict(A=pA, B=pB, D="D", M="M", mright="mright")
+    spec_body = ast.parse(_ORTHO_SPEC.format(**names)).body
+    rets = [r for r in own_nodes(f.node) if isinstance(r, ast.Return)]
+    for dgiven in (False, True):
+        for mcase in ("none", "mright", "mleft"):
+            env = {pA: tt.sym("A"), pB: tt.sym("B"), "D": tt.sym("D") if dgiven else tt.NONE,
+                   "M": tt.NONE if mcase == "none" else tt.sym("M"), "mright": ("op", "bool", mcase == "mright")}
+            label = "%s, %s" % ("D given" if dgiven else "D=None", {"none": "no M", "mright": "M on the right", "mleft": "M on the left"}[mcase])
+            ev, spec = tt.TermEval(env), tt.TermEval(env)
+            try:
+                ev.run([s_ for s_ in f.node.body if not (isinstance(s_, ast.Expr) and isinstance(s_.value, ast.Constant))])
+                spec.run(spec_body)
+            except tt.Unsupported as e:
+                O.undecided(f, f.node, "cannot interpret _ortho for %s: %s" % (label, e))
+                return
+            got, want = ev.returned, spec.env["__ret"]
+            if got == want:
+                O.ok(f.fq, "%s: A - %s with the conjugated B%s" % (label, {"none": "B c", "mright": "B c(M A)", "mleft": "M (B c)"}[mcase], " and the map D" if dgiven else ""))
                 continue
-            corr = rets[0].value.right
-            mm_calls = [c for s in body for c in ast.walk(s) if isinstance(c, ast.Call) and ast.unparse(c.func) == "M.mm"]
-            place = None
-            if not mm_calls:
-                place = "none"
-            elif len(mm_calls) == 1:
-                arg = ast.unparse(mm_calls[0].args[0])
-                in_corr_top = isinstance(corr, ast.Call) and corr is mm_calls[0]
-                if arg == pA and not in_corr_top:
-                    place = "mright"       # M acts on A inside the inner product
-                elif in_corr_top:
-                    place = "mleft"        # M acts on the whole subtracted term
-            # the correction uses B, conj(B) / B^H and (for D given) the map D
-            uses = names_loaded(ast.Module(body=body, type_ignores=[]))
-            has_conj = ("Bconj" in uses and "B.conj()" in ast.unparse(pre.get("Bconj", ast.Constant(0)))) or ("BH" in uses and "conj()" in ast.unparse(pre.get("BH", ast.Constant(0))))
-            has_D = ("D" in uses) == (dcase == "D given")
-            results[(dcase, key)] = (place, has_conj, has_D)
-            if place == key and has_conj and has_D:
-                O.ok(f.fq, "%s, %s: A - %s with the conjugated B%s" % (dcase, {"none": "no M", "mright": "M on the right", "mleft": "M on the left"}[key],
-                                                                       {"none": "B c", "mright": "B c(M A)", "mleft": "M (B c)"}[key], " and the map D" if dcase == "D given" else ""))
-            else:
-                O.bad(f, rets[0], "%s/%s: M is placed as '%s' (expected '%s'), conjugation %s, degeneracy map use %s" % (dcase, key, place, key, has_conj, has_D))
+            foreign = tt.foreign_operators(got, want) if got is not None else []
+            if foreign:
+                O.undecided(f, rets[-1] if rets else f.node, "cannot interpret _ortho for %s: it uses %s, which the specification term does not" % (label, foreign))
+                return
+            O.bad(f, rets[-1] if rets else f.node, "%s: the projector must be A - <B-component of A> with the conjugated B, M %s%s [got %s; expected %s]" %
+                  (label, {"none": "absent", "mright": "applied to A inside the inner product", "mleft": "applied to the whole subtracted component"}[mcase],
+                   ", the degeneracy map multiplied onto B^H A" if dgiven else "", tt.show(got)[:300] if got is not None else None, tt.show(want)[:300]))
 
 
 def _dense_backward(model: Model, G: RuleResult):
@@ -348,6 +347,10 @@ def _dense_backward(model: Model, G: RuleResult):
         if got == want:
             G.ok(bw.fq, "%s: returns 1/2 (R + R^H) with R = V (F^-1 o (V^H Gbar)) V^H + V diag(gbar) V^H, F = lambda_j - lambda_i, |F| <= thr voided before inversion" % what)
             continue
+        foreign = tt.foreign_operators(got, want)
+        if foreign:
+            G.undecided(bw, rets[-1] if rets else bw.node, "cannot interpret degen_symeig.backward on the %s: it uses %s, which the specification term does not" % (what, foreign))
+            return
         subs = list(tt.subterms(got))
         if with_vec and F0 not in subs and tt.neg(F0) in [x for x in subs] or (with_vec and any(x[0] == "fill" and x[1] == tt.neg(F0) for x in subs)):
             why = "F must be eival.unsqueeze(-2) - eival.unsqueeze(-1), i.e. F[i, j] = lambda_j - lambda_i (the sign of the eigenvector term depends on it)"
